@@ -90,6 +90,7 @@ static void jdig(const char *key, const void *p, size_t n) { fprintf(OUT, ",\"%s
 
 /* ------------------------------------------------------------------ context */
 #define GUARD (1 << 16)
+#define MAXN 512          /* largest matrix dimension a scenario may use */
 typedef struct {
     int haveA, fmt /*0 NC, 1 NR*/, m, n; int_t nnz; val_t *a; int_t *idx, *ptr; SuperMatrix A;
     int haveB, nrhs, ldb, ldx; val_t *b, *x; SuperMatrix B, X;
@@ -246,7 +247,7 @@ static void cmd_mat(char *s)
     own(c->A.Store);
     c->haveA = 1;
     if (!c->perm_c) {
-        int mx = 64;
+        int mx = MAXN;
         c->perm_c = int32Malloc(mx); c->perm_r = int32Malloc(mx); c->etree = int32Malloc(mx);
         c->R = (real_t *)SUPERLU_MALLOC(mx * sizeof(real_t)); c->C = (real_t *)SUPERLU_MALLOC(mx * sizeof(real_t));
         c->ferr = (real_t *)SUPERLU_MALLOC(16 * sizeof(real_t)); c->berr = (real_t *)SUPERLU_MALLOC(16 * sizeof(real_t));
@@ -255,7 +256,7 @@ static void cmd_mat(char *s)
         for (int i = 0; i < 16; i++) c->ferr[i] = c->berr[i] = (real_t)-77;
         c->equed[0] = 'N'; c->equed[1] = 0;
     }
-    if (m > 64 || n > 64) { fprintf(stderr, "sluh: matrix too large for this harness\n"); _exit(98); }
+    if (m > MAXN || n > MAXN) { fprintf(stderr, "sluh: matrix too large for this harness\n"); _exit(98); }
 }
 static void cmd_newvals(char *s)
 {
@@ -349,8 +350,10 @@ static void destroy_LU(ctx_t *c, int usermem)
     if (c->haveU) { if (usermem) Destroy_SuperMatrix_Store(&c->U); else Destroy_CompCol_Matrix(&c->U); c->haveU = 0; }
 }
 
+#define ENDLINE() do { fputs("}\n", OUT); slu_v_hold(0); } while (0)
 static void common_head(const char *fn, const ctx_t *c)
 {
+    slu_v_hold(1);
     fprintf(OUT, "{\"e\":\"Ret\",\"id\":\"%s\",\"fn\":\"%s\",\"ty\":\"" TYCH "\",\"m\":%d,\"n\":%d,\"fmt\":\"%s\",\"itsz\":%d", g_id, fn, c->m, c->n, c->fmt ? "NR" : "NC", (int)sizeof(int_t));
 }
 
@@ -378,8 +381,8 @@ static void take_snap(const ctx_t *c, snap_t *s)
         s->x0 = malloc((totx + 1) * sizeof(val_t)); memcpy(s->x0, c->x, totx * sizeof(val_t));
         s->dpadB = pad_digest(c->b, c->m, c->nrhs, c->ldb); s->dpadX = pad_digest(c->x, c->m, c->nrhs, c->ldx);
     }
-    s->dpc = fnv(c->perm_c, 64 * sizeof(int)); s->dpr = fnv(c->perm_r, 64 * sizeof(int)); s->det = fnv(c->etree, 64 * sizeof(int));
-    s->dR = fnv(c->R, 64 * sizeof(real_t)); s->dC = fnv(c->C, 64 * sizeof(real_t)); s->eq0 = c->equed[0];
+    s->dpc = fnv(c->perm_c, MAXN * sizeof(int)); s->dpr = fnv(c->perm_r, MAXN * sizeof(int)); s->det = fnv(c->etree, MAXN * sizeof(int));
+    s->dR = fnv(c->R, MAXN * sizeof(real_t)); s->dC = fnv(c->C, MAXN * sizeof(real_t)); s->eq0 = c->equed[0];
     s->dL = Ldig(c, 0); s->dU = Udig(c, 0); s->dLs = Ldig(c, 1); s->dUs = Udig(c, 1);
 }
 static void snap_json(const ctx_t *c, const snap_t *s)
@@ -404,8 +407,8 @@ static void snap_json(const ctx_t *c, const snap_t *s)
         fprintf(OUT, ",\"X_same\":%d,\"B_same\":%d", memcmp(s->x0, c->x, totx * sizeof(val_t)) == 0, memcmp(s->b0, c->b, tot * sizeof(val_t)) == 0);
     }
     fprintf(OUT, ",\"same\":{\"perm_c\":%d,\"perm_r\":%d,\"etree\":%d,\"R\":%d,\"C\":%d,\"equed\":%d,\"Lval\":%d,\"Uval\":%d,\"Lstr\":%d,\"Ustr\":%d}",
-            s->dpc == fnv(c->perm_c, 64 * sizeof(int)), s->dpr == fnv(c->perm_r, 64 * sizeof(int)), s->det == fnv(c->etree, 64 * sizeof(int)),
-            s->dR == fnv(c->R, 64 * sizeof(real_t)), s->dC == fnv(c->C, 64 * sizeof(real_t)), s->eq0 == c->equed[0],
+            s->dpc == fnv(c->perm_c, MAXN * sizeof(int)), s->dpr == fnv(c->perm_r, MAXN * sizeof(int)), s->det == fnv(c->etree, MAXN * sizeof(int)),
+            s->dR == fnv(c->R, MAXN * sizeof(real_t)), s->dC == fnv(c->C, MAXN * sizeof(real_t)), s->eq0 == c->equed[0],
             s->dL == Ldig(c, 0), s->dU == Udig(c, 0), s->dLs == Ldig(c, 1), s->dUs == Udig(c, 1));
 }
 static void free_snap(snap_t *s) { free(s->a0); free(s->b0); free(s->x0); }
@@ -448,7 +451,7 @@ static void call_gssv(void)
     LU_json(c);
     fprintf(OUT, ",\"expansions\":%d", c->stat.expansions);
     ledger_json(c);
-    fputs("}\n", OUT);
+    ENDLINE();
     free_snap(&s);
 }
 
@@ -495,7 +498,7 @@ static void call_gssvx(int ilu)
     fprintf(OUT, ",\"expansions\":%d,\"steps\":%d", c->stat.expansions, c->stat.RefineSteps);
     work_json(c);
     ledger_json(c);
-    fputs("}\n", OUT);
+    ENDLINE();
     free_snap(&s);
 }
 
@@ -529,7 +532,7 @@ static void call_gstrf(int ilu)
     }
     work_json(c);
     ledger_json(c);
-    fputs("}\n", OUT);
+    ENDLINE();
     free_snap(&s);
 }
 
@@ -546,7 +549,7 @@ static void call_gstrs(char *s0)
     jints("perm_c", c->perm_c, c->n); jints("perm_r", c->perm_r, c->m);
     LU_json(c);
     ledger_json(c);
-    fputs("}\n", OUT);
+    ENDLINE();
     free_snap(&s);
 }
 
@@ -606,7 +609,7 @@ static void run_scenario(void)
         else if (!strcmp(cmd, "failalloc")) { char sub[64]; int line; long kk; int st = 0; if (sscanf(rest, "%63s %d %ld %d", sub, &line, &kk, &st) >= 3) slu_v_fail(!strcmp(sub, "*") ? "" : sub, line, kk, st); }
         else if (!strcmp(cmd, "nofail")) slu_v_fail("", 0, 0, 0);
         else if (!strcmp(cmd, "destroy")) cmd_destroy(rest);
-        else if (!strcmp(cmd, "ledger")) { fprintf(OUT, "{\"e\":\"Ledger\",\"id\":\"%s\"", g_id); cx->ledger_mark = 0; ledger_json(cx); fputs("}\n", OUT); }
+        else if (!strcmp(cmd, "ledger")) { fprintf(OUT, "{\"e\":\"Ledger\",\"id\":\"%s\"", g_id); cx->ledger_mark = 0; ledger_json(cx); ENDLINE(); }
         else if (!strcmp(cmd, "call")) {
             char fn[32]; int kk = 0; if (sscanf(rest, "%31s%n", fn, &kk) < 1) continue; char *a = rest + kk;
             if (!strcmp(fn, "gssv")) call_gssv();
@@ -656,6 +659,7 @@ int main(int argc, char **argv)
                     alarm(timeout); run_scenario(); fflush(OUT); _exit(0);
                 }
                 int st = 0; waitpid(pid, &st, 0);
+                if (WIFSIGNALED(st) || WEXITSTATUS(st) != 0) fputc('\n', OUT);      /* the child may have died in the middle of a line */
                 if (WIFSIGNALED(st)) fprintf(OUT, "{\"e\":\"Done\",\"id\":\"%s\",\"status\":\"%s\",\"sig\":%d,\"code\":0,\"pid\":%d}\n", g_id, WTERMSIG(st) == SIGALRM ? "timeout" : "crash", WTERMSIG(st), (int)pid);
                 else if (WEXITSTATUS(st) == 98) { fprintf(stderr, "sluh: script error in %s\n", g_id); return 2; }
                 else fprintf(OUT, "{\"e\":\"Done\",\"id\":\"%s\",\"status\":\"%s\",\"sig\":0,\"code\":%d,\"pid\":%d}\n", g_id, WEXITSTATUS(st) == 0 ? "ok" : (WEXITSTATUS(st) == 97 ? "abort" : (WEXITSTATUS(st) == 96 ? "sanitizer" : "exit")), WEXITSTATUS(st), (int)pid);
